@@ -451,7 +451,7 @@ def build(d, g):
         flags = ["-shared"]
     elif mode == "script":
         sc = lu.write(os.path.join(d, "keep.ld"),
-                      "SECTIONS {\n  .text : { *(.text .text.*) }\n  .keepdata : { KEEP(*(.data.keep*)) }\n  .data : { *(.data .data.*) }\n  .bss : { *(.bss .bss.*) }\n}\n")
+                      "SECTIONS {\n  .text : { *(.text .text.*) }\n  .keepdata : { KEEP(*(.data.keep*)) }\n  .init_array : { KEEP(*(.init_array)) }\n  .data : { *(.data .data.*) }\n  .bss : { *(.bss .bss.*) }\n}\n")
         flags = ["-T", sc]
     return line, flags
 
